@@ -145,6 +145,21 @@ func init() {
 				}
 				emit("wellformed-msm", fmt.Sprintf("analyse %s %s", defaultStart, hx(mkFrame(s.encode()))))
 			}
+			// well-formed MSM messages cut short at every byte length, multiple flag set and clear
+			for i := 0; i < c.N(10, 150); i++ {
+				s := randSpec(r, i%2 == 0, "random")
+				if len(s.sats) > 6 {
+					s = randSpec(r, i%2 == 0, "8x8")
+				}
+				s.multiple = i%4 < 2 && s.numCells() > 0
+				full := s.encode()
+				if len(full) > 1023 {
+					continue
+				}
+				for n := 20; n < len(full); n++ {
+					emit("cut-short-msm", fmt.Sprintf("analyse %s %s", defaultStart, hx(mkFrame(full[:n]))))
+				}
+			}
 			// random streams through the stream handler
 			for i := 0; i < c.N(60, 1000); i++ {
 				b := make([]byte, r.Intn(300))
